@@ -282,11 +282,23 @@ class C03Case:
                 for k in link_keys:
                     self.declared.setdefault(k, set()).update(lib_files)
             dep_files = set()
+            via_alias = set()
             for dv in self.list_arg(st.text, 'extra_deps'):
-                dep_files |= self.files_of_ref(dv)
+                if dv.strip() == 'grp':
+                    # through a phony target: whether a member that was
+                    # rebuilt by an earlier (interrupted) build still makes
+                    # the dependent dirty differs between Ninja versions
+                    # (phony outputs take their inputs' mtime since 1.11) -
+                    # declared, allowed, not required
+                    via_alias |= self.files_of_ref(dv)
+                else:
+                    dep_files |= self.files_of_ref(dv)
             if dep_files:
                 for k in link_keys:
                     self.must_edges.setdefault(k, set()).update(dep_files)
+            if via_alias:
+                for k in link_keys:
+                    self.declared.setdefault(k, set()).update(via_alias)
             if re.search(r'includes=\[[^\]]*\bxhdr\b', st.text):
                 # an explicitly passed header file of the source tree
                 own = {'src/' + q for q in re.findall(
